@@ -848,6 +848,33 @@ func child(_ *tr.W, thorough bool) {
 	}
 }
 
+// panicSite names the function in which a goroutine panicked: the first frame
+// of the trace that follows the panic line which is neither the runtime's nor
+// panic() itself, without its arguments.
+func panicSite(lines []string) string {
+	seen := false
+	for _, l := range lines {
+		if strings.HasPrefix(l, "goroutine ") {
+			if seen {
+				break
+			}
+			seen = true
+			continue
+		}
+		if !seen || l == "" || strings.HasPrefix(l, "\t") || strings.HasPrefix(l, " ") {
+			continue
+		}
+		if strings.HasPrefix(l, "panic(") || strings.HasPrefix(l, "runtime.") || strings.HasPrefix(l, "[signal") {
+			continue
+		}
+		if i := strings.LastIndex(l, "("); i > 0 {
+			l = l[:i]
+		}
+		return l
+	}
+	return ""
+}
+
 // Run is the driver entry point (parent): it re-executes this binary as
 // "dispchild" and replays the child's lines into the trace; a child that dies
 // becomes a `<event in flight> => PANIC …` observation of the running case.
@@ -860,7 +887,7 @@ func Run(t *tr.W, thorough bool) {
 		panic(err)
 	}
 	defer os.RemoveAll(dir)
-	crashes := 0
+	crashes, silent, silentAt := 0, 0, -1
 	for from := 0; from < n; {
 		outPath := fmt.Sprintf("%s/child-%d.trace", dir, from)
 		cmd := exec.Command(os.Args[0], "dispchild", outPath+".unused")
@@ -924,14 +951,50 @@ func Run(t *tr.W, thorough bool) {
 		if werr == nil && !killed {
 			break
 		}
-		crashes++
-		msg := "child process died"
-		for _, l := range strings.Split(stderr.String(), "\n") {
+		// Why did the child end?  A panic or a fatal error of the Go runtime
+		// (concurrent map access, nil dereference, deadlock, out of memory)
+		// always announces itself on stderr; a child that ends with neither
+		// was terminated from outside or ran into a limit of the harness's
+		// own environment (signal, OOM killer, a stray kill on a shared
+		// machine).  That is not an observation of the code under test: the
+		// cases are a function of the seed alone, so the case it was at is
+		// simply run again in a fresh child, and only a second silent death
+		// at the very same case is reported.
+		msg, diag := "child process died", false
+		errLines := strings.Split(stderr.String(), "\n")
+		for i, l := range errLines {
 			if strings.HasPrefix(l, "panic:") || strings.HasPrefix(l, "fatal error:") {
-				msg = strings.TrimSpace(l)
+				msg, diag = strings.TrimSpace(l), true
+				if fn := panicSite(errLines[i+1:]); fn != "" {
+					msg += " [in " + fn + "]"
+				}
 				break
 			}
 		}
+		diedAt := last + 1
+		if open {
+			diedAt = last
+		}
+		if !killed && !diag {
+			silent++
+			if silentAt != diedAt {
+				silentAt = diedAt
+				t.Line("# child process ended (%v) with no Go panic or fatal-error message at case index %d (event in flight: %q); "+
+					"not an observation of the code under test, the case is run again", werr, diedAt, inflight)
+				t.Hit("child.ended-silently-rerun")
+				if silent >= 5 {
+					// the environment keeps killing the child: this run cannot say anything
+					t.Close()
+					fmt.Fprintf(os.Stderr, "dispatcher driver: child process ended %d times without a diagnostic (last: %v); giving up\n", silent, werr)
+					os.Exit(3)
+				}
+				from = diedAt
+				continue
+			}
+			msg = fmt.Sprintf("child process died twice at this very case without a Go panic message (%v)", werr)
+			t.Hit("child.ended-silently-twice")
+		}
+		crashes++
 		if open {
 			t.Case("disp idx %d", last)
 			for _, l := range buf {
